@@ -267,7 +267,13 @@ def generate(args):
         box.update(ctx=ctx, iters=0)
         parents = []
         for i in range(2):
-            p = Individual([ctx.real('parent%d' % i, 0.0, 1.0)])
+            pv = ctx.real('parent%d' % i, 0.0, 1.0)
+            if args.get('container') == 'ndarray':
+                import numpy as np
+                p = Individual(np.array([pv], dtype=object if ctx.symbolic else float))
+            else:
+                p = Individual([pv])
+            box.setdefault('orig', {})[i] = pv
             p.costs_signed = common.sym_costs(ctx, 'p%d' % i, m, 'bool')
             p.features['front_number'] = ctx.int('front%d' % i, 1, 2)
             parents.append(p)
@@ -282,7 +288,50 @@ def generate(args):
         ctx.check('offspring-pairwise-distinct-designs', any(eqs))
         ctx.check('offspring-are-new-unevaluated-individuals', any(o.state != o.State.EMPTY or any(o is p for p in parents) for o in off))
         ctx.check('offspring-in-box', Or(*[Or(o.vector[0] < 0.0, o.vector[0] > 1.0) for o in off]))
+        ctx.check('generate-leaves-the-parent-designs-untouched',
+                  Or(*[ops.differs(p.vector[0], box['orig'][i], 0.0) for i, p in enumerate(parents)]) or
+                  any(o.vector is p.vector for o in off for p in parents))
     return common.merge_stats(body, st)
+
+
+def variation_contract(args):
+    """The inductive step and the whole-run configurations replace self.generate by its contract: N NEW individuals,
+    the parent population left as it was.  generate() itself is checked with stubbed operators (task `generate`);
+    here the REAL SimulatedBinaryCrossover.cross / PmMutator.mutate run on design vectors given as lists or numpy
+    arrays, and the part of the contract that generate() relies on is checked: the operators do not write into their
+    arguments and do not return objects that share memory with them (otherwise a recorded, evaluated design
+    silently changes while its costs stay -- elitism is then void)."""
+    dim, container, real = args['dim'], args['container'], args['real']
+    import artap.operators as O
+    stubs.install((O, 'random', stubs.random_shim), (O, 'math', stubs.math_shim), (O, 'float', ops.sfloat),
+                  (O, 'np', stubs.numpy_shim), (O, 'max', ops.smax), (O, 'min', ops.smin))
+    params = [{'name': 'x%d' % d, 'bounds': [0.0, 1.0]} for d in range(dim)]
+
+    def body(ctx):
+        import numpy as np
+
+        def mk(name):
+            v = [ctx.real('%s_%d' % (name, d), 0.0, 1.0) for d in range(dim)]
+            return v, (np.array(v, dtype=object if ctx.symbolic else float) if container == 'ndarray' else list(v))
+
+        def shares(a, b):
+            return a is b or (isinstance(a, np.ndarray) and isinstance(b, np.ndarray) and np.shares_memory(a, b))
+        o1, P1 = mk('p')
+        o2, P2 = mk('q')
+        if real == 'sbx':
+            op = O.SimulatedBinaryCrossover(params, ctx.real('pc', 0, 1), 15)
+            res = list(op.cross(P1, P2))
+            args_ = [(P1, o1), (P2, o2)]
+        else:
+            op = O.PmMutator(params, ctx.real('pm', 0, 1), 20)
+            res = [op.mutate(P1), op.mutate(P1)]
+            args_ = [(P1, o1)]
+        ctx.output('n', len(res))
+        ctx.check('operator-leaves-its-arguments-untouched',
+                  Or(*[ops.differs(a, b, 0.0) for P, o in args_ for a, b in zip(list(P), o)]))
+        ctx.check('results-share-no-memory-with-the-arguments', any(shares(r, P) for r in res for P, _o in args_))
+        ctx.check('results-share-no-memory-with-each-other', shares(res[0], res[1]))
+    return body
 
 
 # ---------------------------------------------------------------------------- part 3
@@ -430,8 +479,14 @@ def configs(tier):
                     'args': {'N': N, 'm': m, 'G': G, 'faults': F}, 'weight': 400 * G * (10 if m > 1 or N > 2 else 1), 'split': 64, 'engine': ve})
     for N in (2, 3):
         for arch in (False, True):
-            out.append({'name': 'generate-N%d%s' % (N, '-archive' if arch else ''), 'task': 'generate', 'args': {'N': N, 'archive': arch},
+            out.append({'name': 'generate-N%d%s' % (N, '-archive' if arch else ''), 'task': 'generate',
+                        'args': {'N': N, 'archive': arch, 'container': 'ndarray' if (N == 3 and not arch) else 'list'},
                         'weight': 30 ** N, 'split': 48, 'allowed_cuts': ['generate-unwind>%d' % UNWIND], 'engine': ve})
+    for container in ('list', 'ndarray'):
+        for real, dim in ((('sbx', 1), ('pm', 1)) if Q else (('sbx', 1), ('sbx', 2), ('pm', 1), ('pm', 2))):
+            out.append({'name': 'variation-contract-%s-%s-d%d' % (real, container, dim), 'task': 'variation_contract',
+                        'args': {'dim': dim, 'container': container, 'real': real}, 'weight': 150 ** dim,
+                        'engine': {'mode': 'havoc', 'domain_checks': False, 'validate': 10}})
     for n, m in ((1, 1), (2, 2), (3, 1), (3, 2)) if Q else ((1, 1), (2, 2), (3, 1), (3, 2), (4, 1), (4, 2)):
         out.append({'name': 'pop-acceptance-n%d-m%d' % (n, m), 'task': 'pop_acceptance', 'args': {'n': n, 'm': m}, 'weight': 9 ** n,
                     'split': 32 if n >= 3 else None, 'engine': ve})
